@@ -523,3 +523,64 @@ Qed.
 Lemma equal_agrees : forall a b : dec,
   (equal_num a b = true <-> render a = render b) /\ (render a = render b <-> dec_eq a b).
 Proof. intros a b. split; [apply equal_num_render|apply render_eq_iff]. Qed.
+
+(* ------------------------------------------------------------------------------------------------ *)
+(* the rendering is the canonical decimal numeral: optional "-", integer digits without superfluous leading zero,
+   and - only if needed - a point followed by fraction digits the last of which is not 0; never "-0", never an
+   exponent, a "+" or a space (every character is "-", "." or a digit by construction of the shape) *)
+Definition canonical_text (s : text) : Prop :=
+  exists neg ip fp, s = sign_text neg ++ ip ++ frac_text fp
+    /\ digit_text ip /\ digit_text fp
+    /\ (ip = [48%N] \/ exists c r, ip = c :: r /\ c <> 48%N)
+    /\ (fp = [] \/ exists r c, fp = r ++ [c] /\ c <> 48%N)
+    /\ (neg = true -> (0 < undigits (ip ++ fp))%N).
+
+Lemma trim_zeros_last : forall s, trim_zeros s = [] \/ exists r c, trim_zeros s = r ++ [c] /\ c <> 48%N.
+Proof.
+  intros s. unfold trim_zeros. destruct (drop_while (N.eqb 48) (rev s)) as [|c r] eqn:E; [left; reflexivity|].
+  right. exists (rev r), c. split; [reflexivity|].
+  assert (H : N.eqb 48 c = false).
+  { clear - E. induction (rev s) as [|x l IH]; cbn [drop_while] in E; [discriminate|].
+    destruct (N.eqb 48 x) eqn:Ex; [apply IH; exact E|]. inversion E; subst. exact Ex. }
+  apply N.eqb_neq in H. congruence.
+Qed.
+
+Lemma digits_canonical_head : forall n, digits n = [48%N] \/ exists c r, digits n = c :: r /\ c <> 48%N.
+Proof.
+  intros n. destruct (N.eq_dec n 0) as [->|Hn]; [left; reflexivity|].
+  right. apply digits_head_nonzero. lia.
+Qed.
+
+Lemma render_canonical_text : forall d, canonical_text (render d).
+Proof.
+  intros [m e]. destruct (Z_lt_le_dec e 0) as [He|He].
+  - rewrite render_neg_exp by exact He. cbn [mant dexp].
+    assert (Hk : (0 < Z.to_nat (- e))%nat) by lia.
+    pose proof (split_frac_props (Z.abs_N m) (Z.to_nat (- e)) Hk) as P.
+    assert (Hip : fst (split_frac (Z.abs_N m) (Z.to_nat (- e))) = [48%N]
+                  \/ exists c r, fst (split_frac (Z.abs_N m) (Z.to_nat (- e))) = c :: r /\ c <> 48%N).
+    { unfold split_frac. destruct (Z.to_nat (- e) <? length (digits (Z.abs_N m)))%nat eqn:E; cbn [fst]; [|left; reflexivity].
+      apply Nat.ltb_lt in E. right.
+      destruct (N.eq_dec (Z.abs_N m) 0) as [E0|E0].
+      - rewrite E0 in E. cbn in E. lia.
+      - destruct (digits_head_nonzero (Z.abs_N m) ltac:(lia)) as (c & r & Hd & Hc). rewrite Hd in *.
+        cbn [length] in *. destruct (S (length r) - Z.to_nat (- e))%nat as [|n] eqn:En; [lia|].
+        exists c, (firstn n r). split; [reflexivity|exact Hc]. }
+    destruct (split_frac (Z.abs_N m) (Z.to_nat (- e))) as [ip fp]. cbn [fst] in Hip.
+    destruct P as (P1 & P2 & P3 & P4 & P5).
+    exists (m <? 0)%Z, ip, (trim_zeros fp). repeat split; try assumption.
+    + apply Forall_trim_zeros. exact P3.
+    + apply trim_zeros_last.
+    + intros Hneg. apply Z.ltb_lt in Hneg. destruct (trim_zeros_split fp) as (j & Hj).
+      assert (Hm : (Z.abs_N m = undigits (ip ++ trim_zeros fp) * 10 ^ N.of_nat j)%N).
+      { rewrite <- P5. rewrite Hj at 1. rewrite app_assoc, undigits_app, repeat_length, undigits_repeat0. lia. }
+      destruct (N.eq_dec (undigits (ip ++ trim_zeros fp)) 0) as [E0|E0]; [|lia]. rewrite E0 in Hm. lia.
+  - unfold render. cbn [mant dexp]. assert (E : (0 <=? e)%Z = true) by (apply Z.leb_le; exact He). rewrite E.
+    exists (m * 10 ^ e <? 0)%Z, (digits (Z.abs_N (m * 10 ^ e))), []. repeat split.
+    + rewrite app_nil_r. reflexivity.
+    + apply digits_all_digit.
+    + constructor.
+    + apply digits_canonical_head.
+    + left. reflexivity.
+    + intros Hneg. apply Z.ltb_lt in Hneg. rewrite app_nil_r, undigits_digits. lia.
+Qed.
